@@ -598,7 +598,125 @@ def pieces_tile(facts, b, t, loops):
     return 'several feeds outside any loop: cannot show that they tile the text'
 
 
+def r197(facts, res):
+    """A lexer's line_col(span) answers both ends from the line table: on every returning path the first component is the
+    table's answer for span.start() and the second the table's answer for span.end() (the same query, or - when the path has
+    established start == end - the same value).  A second way of locating the end (arithmetic on the start's answer, a count
+    over the span's text) is a second definition of "line" and "column" that has to agree with the table on line breaks at
+    the very end of the span, CR LF pairs and multi-byte text."""
+    R = 'R19.7'
+    bs = [b for b in facts.lib_bodies(['lrlex', 'lrpar']) if b.name == 'line_col' and (b.trait or '').endswith('NonStreamingLexer')]
+    n = 0
+    for b in bs:
+        n += 1
+        key = 'line_col:' + strip_generics(b.impl_of or b.path).split('::')[-1]
+        w = Walker(b, facts)
+        paths = w.run()
+        if w.overflow:
+            res.bad(R, key, loc_of(b), 'too many paths to decide')
+            continue
+        bad = []
+        nret = 0
+
+        def table_answer(t):
+            """offset term if t = unwrap(byte_to_line_num_and_col_num(_, _, off))"""
+            t = strip_ref(t)
+            if isinstance(t, tuple) and t[0] == 'call' and strip_generics(t[1]).split('::')[-1] in ('unwrap', 'expect', 'unwrap_unchecked') and t[2]:
+                c = strip_ref(t[2][0])
+                if isinstance(c, tuple) and c[0] == 'call' and strip_generics(c[1]).split('::')[-1] == 'byte_to_line_num_and_col_num' and len(c[2]) == 3:
+                    return c[2][2]
+            return None
+
+        def is_end(t, which):
+            t = strip_ref(t)
+            return isinstance(t, tuple) and t[0] == 'call' and strip_generics(t[1]).split('::')[-1] == which and len(t[2]) == 1 and strip_ref(t[2][0]) == ('param', 2)
+        for p_ in paths:
+            if p_.end[0] != 'return':
+                continue
+            nret += 1
+            t = p_.end[1]
+            if not (isinstance(t, tuple) and t[0] == 'tuple' and len(t[1]) == 2):
+                bad.append('a return value that is not a pair built here')
+                continue
+            a, c = table_answer(t[1][0]), table_answer(t[1][1])
+            same_ends = any(v == 1 and isinstance(ct, tuple) and ct[0] == 'bin' and ct[1] == 'Eq' and
+                            {('start' if is_end(ct[2], 'start') else 'end' if is_end(ct[2], 'end') else '?'),
+                             ('start' if is_end(ct[3], 'start') else 'end' if is_end(ct[3], 'end') else '?')} == {'start', 'end'}
+                            for ct, v in p_.conds)
+            if a is None or not (is_end(a, 'start') or (same_ends and is_end(a, 'end'))):
+                bad.append('the start position is not the line table\'s answer for span.start()')
+            if c is None or not (is_end(c, 'end') or (same_ends and is_end(c, 'start'))):
+                bad.append('the end position is %s, not the line table\'s answer for span.end()' % fmt_term(t[1][1])[:90])
+        if nret == 0:
+            res.bad(R, key, loc_of(b), 'no returning path')
+        elif bad:
+            res.bad(R, key, loc_of(b), '; '.join(sorted(set(bad))[:2]))
+        else:
+            res.ok(R, key, loc_of(b), 'both ends are the line table\'s answers for span.start() and span.end() on all %d returning paths' % nret)
+    res.floor(R, 'library implementations of NonStreamingLexer::line_col', n, 1)
+
+
+def r198(facts, res):
+    """The length of an item of `str::lines()` is the length WITHOUT its terminator ("\\n" or "\\r\\n").  A byte position inside
+    the unstripped line can lie in that terminator, i.e. up to two bytes beyond the stripped length; `stripped_len - offset`
+    then underflows (a span that starts on the LF of a CR LF pair).  Such a subtraction has to be saturating/checked or sit
+    behind a comparison of the same two values."""
+    R = 'R19.8'
+    n = 0
+    bad = 0
+    for b in facts.lib_bodies(['cfgrammar', 'lrlex', 'lrpar', 'lrtable']):
+        if b.from_expansion:
+            continue
+        seeds = set()
+        for bb, t in b.calls_named('len'):
+            c = callee_of(t)
+            if not c or 'core::str' not in c['path'] or not t['args']:
+                continue
+            r, projs, via = b.op_root(t['args'][0], stop_named=False)
+            for db, kind, d in b.defs().get(r, []):
+                if kind == 'call' and cname(d) == 'next' and 'core::str::iter::Lines' in ((callee_of(d) or {}).get('self_ty') or ''):
+                    seeds.add(t['dest']['l'])
+        if not seeds:
+            continue
+        # copies
+        alias = set(seeds)
+        for _ in range(4):
+            for l, ds in b.defs().items():
+                if len(ds) == 1 and ds[0][1] == 'stmt' and 'use' in ds[0][2] and op_local(ds[0][2]['use']) in alias and not (op_place(ds[0][2]['use']) or {}).get('p'):
+                    alias.add(l)
+        for bb, i, st in b.stmts():
+            if st['k'] != 'assign' or st['rv'].get('bin') not in ('Sub', 'SubWithOverflow', 'SubUnchecked'):
+                continue
+            la = op_local(st['rv']['a'])
+            if la not in alias or op_const(st['rv']['b']) is not None:
+                continue
+            n += 1
+            lb = op_local(st['rv']['b'])
+            rb = b.op_root(st['rv']['b'], through=())[0] if lb is not None else None
+            # a guard: a comparison of the two values on which this block is control dependent
+            guarded = False
+            for sb in set(b.control_deps(bb)) | set(b.control_deps_pd(bb)):
+                ol = op_local(b.term(sb)['on'])
+                for d in b.defs().get(ol, []) if ol is not None else []:
+                    if d[1] == 'stmt' and d[2].get('bin') in ('Le', 'Lt', 'Ge', 'Gt'):
+                        rs = {b.op_root(d[2]['a'], through=())[0], b.op_root(d[2]['b'], through=())[0]}
+                        ra = {b.op_root({'copy': {'l': x, 'p': []}}, through=())[0] for x in (la,)} | alias
+                        if rb in rs and (rs & ra):
+                            guarded = True
+            key = 'stripped-len-minus-offset:%s#%d' % (strip_generics(b.path).split('::')[-1], n - 1)
+            if guarded:
+                res.ok(R, key, loc_of(b, bb), 'the subtraction from a stripped line length is guarded by a comparison of the two values')
+            else:
+                bad += 1
+                res.bad(R, key, loc_of(b, bb), 'an offset into the unstripped line is subtracted from the length of a str::lines() item (which excludes the '
+                        '"\\n" / "\\r\\n" terminator): for a position on the LF of a CR LF pair the offset exceeds the length and the subtraction underflows', {'function': b.path})
+    if bad == 0:
+        res.ok(R, 'no-unchecked-stripped-len-sub', '', 'no unchecked subtraction from the length of a str::lines() item (%d such subtractions, all guarded)' % n)
+
+
 def run(facts, res):
+    r198(facts, res)
+    r197(facts, res)
     r196(facts, res)
     r195(facts, res)
     r191(facts, res)
